@@ -497,8 +497,8 @@ def worker(shard, part):
         explore_states(part, h, w, hole_states(h, w, max_app)[lo:hi], (None, None, None, None), 24, "holes")
         return
     if shard[0] == "bighole":
-        _, h, w = shard
-        explore_states(part, h, w, big_hole_states(h, w), (None, None, None, None), 6, "big-holes")
+        _, h, w, lo, hi = shard
+        explore_states(part, h, w, big_hole_states(h, w)[lo:hi], (None, None, None, None), 6, "big-holes")
         return
     if shard[0] == "notch":
         _, h, w, positions, max_offsets = shard
@@ -549,7 +549,8 @@ def main(tier, seed, only=None):
                               [(4, 4, tuple((y, x) for y in range(4) for x in range(4)))] + [(7, 8, ((y, x),)) for (y, x) in ((0, 0), (0, 3), (1, 1), (3, 3), (3, 0), (2, 5))] + [(6, 9, ((5, 4),)), (8, 8, ((0, 4),)), (8, 8, ((4, 4),)), (5, 11, ((0, 5),)), (10, 6, ((4, 0),))]):
         shards.append(("notch", h, w, positions, 500 if (tier == "quick" and h * w > 20) else None))
     for (h, w) in ([(17, 17)] if tier == "quick" else [(17, 17), (16, 18), (20, 20)]):
-        shards.append(("bighole", h, w))
+        for lo in range(0, len(big_hole_states(h, w)), 2):
+            shards.append(("bighole", h, w, lo, lo + 2))
     for (h, w, holes) in PARTIAL:
         for cfg in ((None, None, None, None), (None, None, 1, 3), (2, 4, None, None), (None, 3, 2, None)):
             shards.append(("partial", h, w, holes, cfg))
